@@ -14,6 +14,7 @@ import (
 	"evylang.dev/evy/pkg/lexer"
 	"evylang.dev/evy/pkg/parser"
 	"pgregory.net/rapid"
+	"verif/harness/cfz"
 	"verif/harness/corpus"
 	"verif/harness/h"
 	"verif/harness/rec"
@@ -382,7 +383,7 @@ func TestProp(t *testing.T) {
 			p := pick(t, "prog")
 			c.Src, c.Origin = p.Src, "pristine:"+p.Name
 		case "confuse":
-			c.Src, c.Ops = confuse(t)
+			c.Src, c.Ops = cfz.Program(t, rapid.Bool().Draw(t, "related"))
 		case "tokens":
 			p, q := pick(t, "prog"), pick(t, "other")
 			k := rapid.IntRange(1, 4).Draw(t, "k")
